@@ -227,7 +227,49 @@ func (d *dumper) dump(v reflect.Value, depth int) {
 // TapDump records the canonical dump of v.
 func TapDump(name string, v interface{}) { Tap(name, DumpTree(v)) }
 
+// FedFile is one submitted item as recorded by TapFeed (bytes, so that
+// contents that are not valid UTF-8 survive the JSON transport).
+type FedFile struct {
+	Content []byte `json:"content"`
+	Name    []byte `json:"name,omitempty"`
+	HasName bool   `json:"has_name,omitempty"`
+	IP      []byte `json:"ip,omitempty"`
+	HasIP   bool   `json:"has_ip,omitempty"`
+}
+
 // TapFeed records one FileManager.Feed call (source and submitted items).
+// files is a slice of pointers to structs with the fields Content string,
+// Name *string and InsertionPoint *string.
 func TapFeed(src string, files interface{}) {
-	Tap("feed", map[string]interface{}{"src": src, "files": files})
+	if W == nil {
+		return
+	}
+	var out []FedFile
+	v := reflect.ValueOf(files)
+	if v.Kind() == reflect.Slice {
+		for i := 0; i < v.Len(); i++ {
+			e := v.Index(i)
+			for e.Kind() == reflect.Ptr || e.Kind() == reflect.Interface {
+				if e.IsNil() {
+					break
+				}
+				e = e.Elem()
+			}
+			if e.Kind() != reflect.Struct {
+				continue
+			}
+			var ff FedFile
+			if f := e.FieldByName("Content"); f.IsValid() && f.Kind() == reflect.String {
+				ff.Content = []byte(f.String())
+			}
+			if f := e.FieldByName("Name"); f.IsValid() && f.Kind() == reflect.Ptr && !f.IsNil() {
+				ff.Name, ff.HasName = []byte(f.Elem().String()), true
+			}
+			if f := e.FieldByName("InsertionPoint"); f.IsValid() && f.Kind() == reflect.Ptr && !f.IsNil() {
+				ff.IP, ff.HasIP = []byte(f.Elem().String()), true
+			}
+			out = append(out, ff)
+		}
+	}
+	Tap("feed", map[string]interface{}{"src": src, "files": out})
 }
